@@ -270,10 +270,10 @@ def plan(tier, seed):
     else:
         for c in range(12):
             specs.append({"kind": "exhaustive", "n": 7, "chunk": c, "nchunks": 12})
-    for i in range(4 if q else 10):
-        specs.append({"kind": "random", "sub": i, "cases": 250 if q else 4000, "budget_s": 100 if q else 1500})
-    for i in range(2 if q else 4):
-        specs.append({"kind": "accessor", "sub": i, "cases": 40 if q else 400, "budget_s": 100 if q else 1500})
+    for i in range(4 if q else 16):
+        specs.append({"kind": "random", "sub": i, "cases": 250 if q else 12000, "budget_s": 100 if q else 600})
+    for i in range(2 if q else 8):
+        specs.append({"kind": "accessor", "sub": i, "cases": 40 if q else 1000, "budget_s": 100 if q else 600})
     return specs
 
 
